@@ -332,6 +332,11 @@ def c20(work, tier, seed):
             size = [1, 100, 1400, 5000][h % 4]
         scripts.append({"id": "q%05d" % i, "method": ["GET", "PUT", "DELETE"][h % 3] if req["method"] == "GET" else "POST", "len": req["len"], "body": req["body"], "realm": req["realm"],
                         "size": size, "sizecls": req["size"], "kdcs": kd, "target": "handler", "after": req.get("after", "nothing")})
+    # reply lengths around the places where the length encoding of the wrapping changes (128, 256, 65536)
+    lens = list(range(112, 136)) + list(range(244, 264)) + [65500, 65524, 65528, 65532, 65536, 65540, 100000]
+    for k, rl in enumerate(lens if tier == "quick" else lens + list(range(1, 112)) + list(range(264, 300))):
+        scripts.append({"id": "r%05d" % len(scripts), "method": "POST", "len": "ok", "body": "valid", "realm": ["default", "configured"][k % 2], "size": 100, "sizecls": "s1400",
+                        "kdcs": [{"tcp": "reply-close", "udp": "silent"}], "target": "handler", "after": "nothing", "replyLen": rl})
     # several requests at the same time on one proxy instance (every KDC delays its reply so that they overlap): what a
     # request is answered does not depend on the others
     base = [x for x in scripts if x["method"] == "POST" and x["len"] == "ok" and x["body"] == "valid" and x["realm"] != "unknown" and x["sizecls"] in ("s4", "s1400", "s60000")]
